@@ -784,6 +784,11 @@ func genC10(g *G) {
 		for _, oc := range []string{"noevents", "fetcherr", "silent", "gto", "refused"} {
 			g.Emit("handler", h, oc)
 		}
+		if h == "refresh" {
+			for _, oc := range []string{"emptyhash", "topoerr", "storefail"} {
+				g.Emit("handler", h, oc)
+			}
+		}
 	}
 	// constructor-only cells: every kind x every way the share can be unusable, and the bad tweaks of FROST signing
 	for _, k := range c10kinds {
